@@ -341,6 +341,14 @@ typedef struct elliptic_curve_proj_pf_fpx_comb2t_mult_data_s {
 #	error "EC_PF_UNKPT_MULT_WIN_BITS must not be greater than EC_PF_FXP_MULT_WIN_BITS"
 #endif
 
+/* Sliding window take windows from inside one digit. */
+#if (EC_PF_FXP_MULT_ALGO == EC_PF_FXP_MULT_ALGO_SLIDING_WIN &&		\
+     EC_PF_FXP_MULT_WIN_BITS > BN_DIGIT_BIT_CNT) ||			\
+    (EC_PF_UNKPT_MULT_ALGO == EC_PF_UNKPT_MULT_ALGO_SLIDING_WIN &&	\
+     EC_PF_UNKPT_MULT_WIN_BITS > BN_DIGIT_BIT_CNT)
+#	error "Sliding window must not be wider than BN_DIGIT_BIT_CNT"
+#endif
+
 #if EC_PF_UNKPT_MULT_ALGO == EC_PF_UNKPT_MULT_ALGO_BIN
 /* None */
 #elif EC_PF_UNKPT_MULT_ALGO == EC_PF_UNKPT_MULT_ALGO_BIN_PRECALC_DBL
@@ -445,8 +453,9 @@ typedef struct elliptic_curve_proj_pf_fpx_comb2t_mult_data_s {
 #	define ec_point_proj_twin_mult					\
 		ec_point_proj_joint_twin_mult_affine
 #elif EC_PF_TWIN_MULT_ALGO == EC_PF_TWIN_MULT_ALGO_INTER
+	/* Take and return affine points, there is no affine only variant. */
 #	define ec_point_affine_twin_mult				\
-		ec_point_affine_inter_twin_mult
+		ec_point_proj_inter_twin_mult_affine
 #	define ec_point_proj_twin_mult					\
 		ec_point_proj_inter_twin_mult_affine
 #endif /* EC_PF_TWIN_MULT_ALGO */
@@ -838,12 +847,12 @@ ec_point_proj_dbl_n(ec_point_proj_p point, size_t n, ec_curve_p curve) {
 
 	if (NULL == point || NULL == curve)
 		return (EINVAL);
+	if (0 == n || 0 != ec_point_proj_is_at_infinity(point)) /* Nothing to do / Point at infinity. */
+		return (0);
 	if (0 != bn_is_zero(&point->y)) {
 		bn_assign_zero(&point->z);
 		return (0); /* Point at infinity. */
 	}
-	if (0 == n || 0 != ec_point_proj_is_at_infinity(point)) /* Point at infinity. */
-		return (0);
 	/* Double size + 1 digit. */
 	bits = (EC_CURVE_CALC_BITS_DBL(curve) + (2 * BN_DIGIT_BITS));
 	/* Init */
@@ -1393,7 +1402,7 @@ ec_point_proj_fpx_comb1t_mult(ec_point_proj_p point,
     ec_point_proj_fpx_comb1t_mult_data_p mult_data, bn_p d, ec_curve_p curve) {
 	ssize_t i;
 	size_t bit_off;
-	bn_digit_t windex;
+	size_t windex; /* Window may be wider than digit. */
 
 	if (NULL == point || NULL == d || NULL == mult_data || NULL == curve)
 		return (EINVAL);
@@ -1487,7 +1496,7 @@ ec_point_proj_fpx_comb2t_mult(ec_point_proj_p point,
     ec_point_proj_fpx_comb2t_mult_data_p mult_data, bn_p d, ec_curve_p curve) {
 	ssize_t i;
 	size_t bit_off;
-	bn_digit_t windex;
+	size_t windex; /* Window may be wider than digit. */
 
 	if (NULL == point || NULL == d || NULL == mult_data || NULL == curve)
 		return (EINVAL);
@@ -1834,9 +1843,9 @@ ec_point_proj_inter_twin_mult_affine(ec_point_p a, bn_p ad, ec_point_p b, bn_p b
 
 	/* Compute the precomputation table. */
 	BN_RET_ON_ERR(ec_point_proj_inter_twin_mult_precalc_affine(a, EP_DEPTH,
-	    curve, (ec_point_t*)tbl0));
+	    curve, tbl0));
 	BN_RET_ON_ERR(ec_point_proj_inter_twin_mult_precalc_affine(b, EP_WIDTH,
-	    curve, (ec_point_t*)tbl1));
+	    curve, tbl1));
 
 	/* Compute the w-TNAF representation of k. */
 	BN_RET_ON_ERR(bn_calc_naf(ad, EP_DEPTH, sizeof(naf0), naf0, &naf0_cnt));
@@ -2193,7 +2202,7 @@ ec_point_affine_fpx_comb1t_mult(ec_point_p point,
     ec_point_fpx_comb1t_mult_data_p mult_data, bn_p d, ec_curve_p curve) {
 	ssize_t i;
 	size_t bit_off;
-	bn_digit_t windex;
+	size_t windex; /* Window may be wider than digit. */
 
 	if (NULL == point || NULL == mult_data || NULL == d || NULL == curve)
 		return (EINVAL);
@@ -2258,7 +2267,7 @@ ec_point_affine_fpx_comb2t_mult(ec_point_p point,
     ec_point_fpx_comb2t_mult_data_p mult_data, bn_p d, ec_curve_p curve) {
 	ssize_t i;
 	size_t bit_off;
-	bn_digit_t windex;
+	size_t windex; /* Window may be wider than digit. */
 
 	if (NULL == point || NULL == mult_data || NULL == d || NULL == curve)
 		return (EINVAL);
